@@ -62,6 +62,11 @@ package disk
 //@   trace io.Copy as IOCOPY bind cperr
 //@   trace (*File).Close as CLOSE bind dclose when $0 == crerr.0
 //@   trace_ensures operr.1 != nil : ^OPEN $
+// a copy is made by reading the source and writing a new file - never by linking: the first host
+// call opens the source, and the copy shares nothing with it afterwards
+//@   trace_ensures true : ^OPEN
+//@   at_call os.Link requires false
+//@   at_call os.Symlink requires false
 //@   ensures operr.1 != nil ==> result == operr.1
 //@   ensures operr.1 == nil && crerr.1 != nil ==> result == crerr.1
 //@   ensures operr.1 == nil && crerr.1 == nil && cperr.1 != nil ==> result == cperr.1
